@@ -160,6 +160,8 @@ def oracle_factory(ctx):
 
     def oracle(case):
         f = inner(case)
+        if f is not None and "export-not-repeatable" in f.bucket:
+            return f        # (none of the recorded defects is of this kind)
         if f is not None:
             feat = known_feature(case[0])
             if feat == "enum-without-integer-type" and "enum-without-integer-type" in f.bucket:
@@ -189,6 +191,9 @@ def _oracle_factory(ctx):
                 return None
             ctx.record(case, False, ["export/raises-" + type(o.exc).__name__])
             return Failure("C19/%s/export-raises/%s" % (fk, type(o.exc).__name__), "export_ksy raised %r | %s" % (o, where))
+        o_again, doc_again = export(con)
+        if doc is not None and doc_again != doc:
+            return Failure("C19/%s/export-not-repeatable" % fk, "a second export_ksy() of the same construct differs from the first: %s vs %s | %s" % (short(doc_again, 300), short(doc, 300), where))
         if doc is None:
             return Failure("C19/export-not-serialisable", "export_ksy output could not be read back: %s | %s" % (short(o.value), where))
         named = sum(1 for s in G.walk(spec) if s[0] in ("struct", "seq", "fseq", "bitstruct") for n, _ in (s[1] if s[0] != "fseq" else s[2]) if n)
